@@ -7,7 +7,7 @@
 (c) a monitor wraps DimArray.__init__ during the run and checks well-formedness of every array the
     library constructs.
 """
-import copy, itertools
+import copy, itertools, json
 from collections import OrderedDict
 import numpy as np
 import core, gen
@@ -175,8 +175,40 @@ class C05(Prop):
         return {"op": "helper", "axes": [gen.clean(a) for a in arr["axes"]], "helper": rng.choice(["zeros", "ones", "empty", "nans"]),
                 "form": rng.choice(["lists+dims", "pairs", "objs"])}
 
+    def gen_hist(self, rng):
+        """a history of derivations, queries and relabellings over a few live arrays, then probes"""
+        rank = rng.choice([1, 1, 2])
+        arr = gen.clean(gen.rand_array(rng, rank=rank, maxn=5, minn=2, kinds=[rng.choice(["i", "i", "f"]) for _ in range(rank)]))
+        arr["vkind"] = "f"
+        shapes = [[len(a["labels"]) for a in arr["axes"]]]
+        steps = []
+        for _ in range(rng.randint(1, 5)):
+            k = rng.randrange(len(shapes))
+            sh = shapes[k]
+            d = rng.randrange(len(sh))
+            r = rng.random()
+            if r < 0.35:
+                steps.append(["query", k, rng.choice(["add_other", "is_monotonic", "align_other", "sort_axis", "reindex_other", "radd_other"]), d])
+            elif r < 0.55 and sh[d] >= 1:
+                lo = rng.randint(0, max(0, sh[d] - 1)); hi = rng.randint(lo, sh[d])
+                steps.append(["slice", k, d, lo, hi]); shapes.append(sh[:d] + [hi - lo] + sh[d + 1:])
+            elif r < 0.65 and sh[d] >= 1:
+                ps = [rng.randrange(sh[d]) for _ in range(rng.randint(1, 3))]
+                steps.append(["take", k, d, ps]); shapes.append(sh[:d] + [len(ps)] + sh[d + 1:])
+            elif r < 0.72:
+                steps.append(["transpose", k]); shapes.append(sh[::-1])
+            elif r < 0.78:
+                steps.append(["copy", k]); shapes.append(list(sh))
+            elif r < 0.9 and sh[d] >= 1:
+                steps.append(["relabel", k, d, rng.randrange(sh[d]), rng.choice([-7, 50, 3, 12])])
+            elif sh[d] >= 1:
+                steps.append(["sort_inplace", k, d])
+        return {"op": "hist", "array": arr, "steps": steps, "forms": []}
+
     def gen(self, rng, tier):
         n = 500 if tier == "quick" else 8000
+        for _ in range(300 if tier == "quick" else 8000):
+            yield self.gen_hist(rng)
         for _ in range(n):
             r = rng.random()
             if r < 0.6:
@@ -198,7 +230,83 @@ class C05(Prop):
             return v.reshape(()).item()
         return v
 
+    def other_for(self, x, d):
+        """an array sharing dimension d with labels overlapping those of x"""
+        ax = x.axes[d]
+        labs = np.array(sorted(set([0, 2] + [int(v) for v in np.asarray(ax.values, dtype=float)[:1]])), dtype=ax.values.dtype if ax.values.dtype.kind in "if" else float)
+        return DimArray(np.arange(len(labs)) * 100.0, axes=[Axis(labs, ax.name)])
+
+    def run_hist(self, c):
+        import warnings
+        env = [core.build_array(c["array"], 0)]
+        for st in c["steps"]:
+            t, k = st[0], st[1]
+            a = env[k]
+            try:
+                with warnings.catch_warnings():
+                    warnings.simplefilter("ignore")
+                    if t == "query":
+                        q, d = st[2], st[3]
+                        o = self.other_for(a, d)
+                        if q == "add_other":
+                            a + o
+                        elif q == "radd_other":
+                            o + a
+                        elif q == "is_monotonic":
+                            a.axes[d].is_monotonic()
+                        elif q == "align_other":
+                            da.align(a, o, join="outer")
+                        elif q == "sort_axis":
+                            a.sort_axis(axis=d)
+                        elif q == "reindex_other":
+                            a.reindex_axis(o.axes[0].values, axis=d)
+                    elif t == "slice":
+                        key = tuple(slice(st[3], st[4]) if i == st[2] else slice(None) for i in range(a.ndim))
+                        env.append(a.ix[key])
+                    elif t == "take":
+                        env.append(a.take(list(st[3]), axis=st[2], indexing="position"))
+                    elif t == "transpose":
+                        env.append(a.transpose())
+                    elif t == "copy":
+                        env.append(a.copy())
+                    elif t == "relabel":
+                        a.axes[st[2]][st[3]] = st[4]
+                    elif t == "sort_inplace":
+                        pass
+            except Exception:
+                if t in ("slice", "take", "transpose", "copy"):
+                    env.append(a)
+        # probes: every live array against a freshly constructed equal array
+        out = []
+        for a in env:
+            f = DimArray(np.array(a.values, copy=True), axes=[Axis(np.array(ax.values, copy=True), ax.name) for ax in a.axes])
+            res = []
+            for d in range(a.ndim):
+                o = self.other_for(f, d)
+                probes = [("add", lambda x: x + o), ("radd", lambda x: o + x), ("align", lambda x: da.align(x, o, join="outer")[0]),
+                          ("align_sort", lambda x: da.align(x, o, join="outer", sort=True)[0]),
+                          ("reindex", lambda x: x.reindex_axis(o.axes[0].values, axis=d)),
+                          ("sort_axis", lambda x: x.sort_axis(axis=d)),
+                          ("slice", lambda x: x.take(slice(x.axes[d].values.min(), None), axis=d) if x.axes[d].size else x),
+                          ("loc_first", lambda x: x.take([x.axes[d].values[0]], axis=d) if x.axes[d].size else x),
+                          ("is_monotonic", lambda x: bool(x.axes[d].is_monotonic()))]
+                for name, fn in probes:
+                    def run(x):
+                        with warnings.catch_warnings():
+                            warnings.simplefilter("ignore")
+                            r = fn(x)
+                        return core.obs_array(r) if isinstance(r, DimArray) else r
+                    res.append({"probe": name, "d": d, "hist": core.guarded(lambda: run(a)), "fresh": core.guarded(lambda: run(f))})
+            out.append(res)
+        return {"ok": out}
+
     def impl(self, c):
+        if c["op"] == "hist":
+            monitor_on()
+            try:
+                return self.run_hist(c)
+            finally:
+                monitor_off()
         monitor_on()
         try:
             if c["op"] == "helper":
@@ -233,6 +341,8 @@ class C05(Prop):
             monitor_off()
 
     def request(self, c):
+        if c["op"] == "hist":
+            return {"op": "construct_group", "shape": [], "vkind": "f", "variants": []}
         if c["op"] == "helper":
             shape = [len(a["labels"]) for a in c["axes"]]
             return {"op": "construct_group", "shape": shape, "vkind": "f", "variants": [lean_variant(c["form"], c["axes"])]}
@@ -242,6 +352,19 @@ class C05(Prop):
     def judge(self, c, io, ans):
         bad = []
         detail = {}
+        if c["op"] == "hist":
+            if "err" in io:
+                return {"kind": "P", "differs": ["outcome:" + io["err"]], "msg": io.get("msg")}
+            for v, res in enumerate(io["ok"]):
+                for r in res:
+                    h, f = r["hist"], r["fresh"]
+                    same = (("err" in h) == ("err" in f)) and (("err" in h and h["err"] == f["err"]) or ("ok" in h and h["ok"] == f["ok"]))
+                    if not same:
+                        bad.append("history_dependent:%s" % r["probe"])
+                        detail.setdefault("first", {"var": v, "probe": r["probe"], "d": r["d"], "hist": h, "fresh": f})
+            if not bad:
+                return None
+            return {"kind": "P", "differs": sorted(set(bad)), "detail": detail}
         if c["op"] == "helper":
             lean = ans["lib"][0]
             if "err" in io or "err" in lean:
@@ -298,15 +421,24 @@ class C05(Prop):
         return {"monitor_arrays_constructed": MON["constructed"], "monitor_illformed": MON["illformed"]}
 
     def nontrivial(self, c):
+        if c["op"] == "hist":
+            return len(c["steps"]) >= 1
         return len(c["axes"]) >= 1
 
     def features(self, c, io):
+        if c["op"] == "hist":
+            f = {"op": "hist", "rank": len(c["array"]["axes"]), "nsteps": len(c["steps"])}
+            for st in c["steps"]:
+                f["step:" + st[0] + (":" + st[2] if st[0] == "query" else "")] = 1
+            return f
         f = {"op": c["op"], "rank": len(c["axes"]), "malformed": c.get("_malformed"), "values_as": c.get("values_as")}
         if c["op"] == "ctor":
             f["n_rejected"] = sum(1 for o in io["ok"] if "err" in o)
         return f
 
     def size(self, c):
+        if c["op"] == "hist":
+            return len(json.dumps(c))
         return sum(len(a["labels"]) for a in c["axes"]) + 10 * len(c["axes"])
 
     def snippet(self, c):
